@@ -523,4 +523,296 @@ theorem hdrLines_hash (n : Nat) (path bid : List Char) :
       exact ⟨_, by rw [h, e3]; rfl⟩
 
 
+/-! ### writer/reader agreement -/
+
+theorem pathPre_eq : "# path name: ".toList = ['#',' ','p','a','t','h',' ','n','a','m','e',':',' '] := by decide
+theorem bidPre_eq : "# build-id: ".toList = ['#',' ','b','u','i','l','d','-','i','d',':',' '] := by decide
+theorem symPre_eq : "# symbols: ".toList = ['#',' ','s','y','m','b','o','l','s',':',' '] := by decide
+
+theorem hdrStep_symbols (h : SymHdr) (r : List Char) : hdrStep h ("# symbols: ".toList ++ r) = h := by
+  unfold hdrStep stripPrefix
+  rw [pathPre_eq, bidPre_eq, symPre_eq]
+  simp
+
+theorem hdrStep_path (h : SymHdr) (p : List Char) :
+    hdrStep h ("# path name: ".toList ++ p) = { h with count := h.count + 1, path := p } := by
+  unfold hdrStep stripPrefix
+  rw [pathPre_eq, bidPre_eq]
+  simp
+
+theorem hdrStep_bid (h : SymHdr) (b : List Char) :
+    hdrStep h ("# build-id: ".toList ++ b) = { h with count := h.count + 1, bid := b.take 40 } := by
+  unfold hdrStep stripPrefix
+  rw [pathPre_eq, bidPre_eq]
+  simp
+
+theorem saveLine_head (off : Nat) (s : Sym) : (saveLine off s).head? ≠ some '#' := by
+  rw [saveLine_eq]
+  unfold hexFixed
+  simp only [List.cons_append, List.head?_cons, ne_eq, Option.some.injEq]
+  exact (hexDigit_facts _ (Nat.mod_lt _ (by decide))).2.2.2.2.2.1
+
+/-- the header `check_symbol_file` reads from a file that `save_module_symbol_file` wrote -/
+theorem checkSymbolFile_save (path bid : List Char) (t : List Sym)
+    (hp : '\n' ∉ path) (hb : '\n' ∉ bid) (hok : ∀ s ∈ t, SaveOk s) (hne : t ≠ []) (hlen : bid.length ≤ 40) :
+    checkSymbolFile (save 0 path bid t) =
+      { count := if bid.isEmpty then 1 else 2, path := path, bid := bid } := by
+  unfold checkSymbolFile
+  rw [splitLines_save 0 path bid t hp hb (fun x hx => saveLine_no_nl 0 x (hok x hx)) hne]
+  rw [List.takeWhile_append_of_pos]
+  · cases t with
+    | nil => exact absurd rfl hne
+    | cons s r =>
+      have hh : ((saveLine 0 s).head? == some '#') = false := by
+        simpa using saveLine_head 0 s
+      simp only [List.map_cons, List.takeWhile_cons, hh, Bool.false_eq_true, if_false, List.append_nil]
+      unfold hdrLines
+      by_cases hbe : bid.isEmpty = true
+      · have : bid = [] := by simpa using hbe
+        subst this
+        simp only [List.isEmpty_nil, if_true, List.append_nil, List.foldl_cons, List.foldl_nil,
+          hdrStep_symbols, hdrStep_path]
+      · simp only [hbe, Bool.false_eq_true, if_false, List.cons_append, List.nil_append, List.foldl_cons,
+          List.foldl_nil, hdrStep_symbols, hdrStep_path, hdrStep_bid, List.take_of_length_le hlen]
+  · intro l hl
+    obtain ⟨r, hr⟩ := hdrLines_hash _ _ _ l hl
+    simp [hr]
+
+
+theorem get_append_old (d : SymDir) (nm x : List Char) (e : List Char × List Char)
+    (h : d.get nm = some x) : SymDir.get (d ++ [e]) nm = some x := by
+  unfold SymDir.get at *
+  rw [List.lookup_append, h]; rfl
+
+theorem get_append_new (d : SymDir) (nm x : List Char) (h : d.get nm = none) :
+    SymDir.get (d ++ [(nm, x)]) nm = some x := by
+  unfold SymDir.get at *
+  rw [List.lookup_append, h]; simp [List.lookup]
+
+theorem get_append_inv (d : SymDir) (nm k x y : List Char)
+    (h : SymDir.get (d ++ [(k, y)]) nm = some x) : d.get nm = some x ∨ (nm = k ∧ x = y) := by
+  unfold SymDir.get at *
+  rw [List.lookup_append] at h
+  cases hd : List.lookup nm d with
+  | some v => rw [hd] at h; left; simpa using h
+  | none =>
+    rw [hd] at h
+    right
+    simp only [Option.none_or, List.lookup] at h
+    by_cases e : nm == k
+    · simp only [e] at h
+      exact ⟨by simpa using e, by simpa using h.symm⟩
+    · simp [e] at h
+
+/-- `save_module_symbol_file` changes nothing or creates exactly one new file, under the
+    primary or the alternative name -/
+theorem saveStep_cases (d : SymDir) (m : Mod) :
+    saveStep d m = d ∨
+    (m.tab ≠ [] ∧ ∃ nm, (nm = primaryName m ∨ nm = altName m) ∧ d.get nm = none ∧
+      saveStep d m = d ++ [(nm, save 0 m.path m.bid m.tab)]) := by
+  unfold saveStep saveInto
+  by_cases ht : m.tab.isEmpty = true
+  · left; simp [ht]
+  · have hne : m.tab ≠ [] := by intro e; simp [e] at ht
+    simp only [ht, Bool.false_eq_true, if_false]
+    split
+    · rename_i hg
+      right
+      exact ⟨hne, _, Or.inl rfl, hg, rfl⟩
+    · split
+      · left; rfl
+      · split
+        · left; rfl
+        · split
+          · rename_i hg
+            right
+            exact ⟨hne, _, Or.inr rfl, hg, rfl⟩
+          · left; rfl
+
+theorem saveStep_mono (d : SymDir) (m : Mod) (nm x : List Char) (h : d.get nm = some x) :
+    (saveStep d m).get nm = some x := by
+  rcases saveStep_cases d m with e | ⟨_, k, _, _, e⟩
+  · rw [e]; exact h
+  · rw [e]; exact get_append_old d nm x _ h
+
+theorem foldl_saveStep_mono (ms : List Mod) (d : SymDir) (nm x : List Char) (h : d.get nm = some x) :
+    (ms.foldl saveStep d).get nm = some x := by
+  induction ms generalizing d with
+  | nil => exact h
+  | cons m r ih => exact ih _ (saveStep_mono d m nm x h)
+
+/-- every file of the directory was written for one of the modules handled so far -/
+def Written (done : List Mod) (d : SymDir) : Prop :=
+  ∀ nm text, d.get nm = some text →
+    ∃ m ∈ done, m.tab ≠ [] ∧ text = save 0 m.path m.bid m.tab ∧ (nm = primaryName m ∨ nm = altName m)
+
+theorem written_nil : Written [] [] := by
+  intro nm text h
+  simp [SymDir.get] at h
+
+theorem written_step (done : List Mod) (d : SymDir) (m : Mod) (h : Written done d) :
+    Written (done ++ [m]) (saveStep d m) := by
+  intro nm text hg
+  rcases saveStep_cases d m with e | ⟨hne, k, hk, _, e⟩
+  · rw [e] at hg
+    obtain ⟨m', hm', r⟩ := h nm text hg
+    exact ⟨m', by simp [hm'], r⟩
+  · rw [e] at hg
+    rcases get_append_inv d nm k text _ hg with h1 | ⟨h1, h2⟩
+    · obtain ⟨m', hm', r⟩ := h nm text h1
+      exact ⟨m', by simp [hm'], r⟩
+    · exact ⟨m, by simp, hne, h2, h1 ▸ hk⟩
+
+theorem written_foldl (ms done : List Mod) (d : SymDir) (h : Written done d) :
+    Written (done ++ ms) (ms.foldl saveStep d) := by
+  induction ms generalizing done d with
+  | nil => simpa using h
+  | cons m r ih =>
+    have := ih (done ++ [m]) (saveStep d m) (written_step done d m h)
+    simpa using this
+
+/-- What one recording may contain for writer and reader to agree (`ws` = the reader runs
+    with `--with-syms`): strings the header lines can carry; a path names one file; a
+    build-id names one binary; an alternative file name is never another module's primary
+    name and is shared only by installations of one binary; with `--with-syms` (path check
+    waived) every binary has a build-id. -/
+structure Consistent (ws : Bool) (ms : List Mod) : Prop where
+  ok : ∀ m ∈ ms, '\n' ∉ m.path ∧ '\n' ∉ m.bid ∧ m.bid.length ≤ 40 ∧ ∀ s ∈ m.tab, SaveOk s
+  samePath : ∀ m ∈ ms, ∀ m' ∈ ms, m.path = m'.path → m.bid = m'.bid ∧ m.tab = m'.tab
+  sameBid : ∀ m ∈ ms, ∀ m' ∈ ms, m.bid = m'.bid → m.bid ≠ [] → m.tab = m'.tab
+  altPrim : ∀ m ∈ ms, ∀ m' ∈ ms, altName m ≠ primaryName m'
+  altAlt : ∀ m ∈ ms, ∀ m' ∈ ms, altName m = altName m' →
+    m.path = m'.path ∨ (m.bid = m'.bid ∧ m.bid ≠ [])
+  withSyms : ws = true → ∀ m ∈ ms, m.bid ≠ []
+
+theorem hdr_of (ws : Bool) (all : List Mod) (hC : Consistent ws all) (m : Mod) (hm : m ∈ all) (hne : m.tab ≠ []) :
+    checkSymbolFile (save 0 m.path m.bid m.tab) =
+      { count := if m.bid.isEmpty then 1 else 2, path := m.path, bid := m.bid } := by
+  obtain ⟨a, b, c, e⟩ := hC.ok m hm
+  exact checkSymbolFile_save _ _ _ a b e hne c
+
+/-- the reader's choice right after the writer handled module `m` (and in every later
+    state `dfin` of the directory, files being only added) -/
+theorem reader_after_step (ws : Bool) (all done : List Mod) (d dfin : SymDir) (m : Mod)
+    (hC : Consistent ws all) (hsub : ∀ x ∈ done, x ∈ all) (hm : m ∈ all)
+    (hW : Written done d) (hne : m.tab ≠ [])
+    (hmono : ∀ nm x, (saveStep d m).get nm = some x → dfin.get nm = some x) :
+    ∃ m' ∈ all, m'.tab = m.tab ∧
+      dfin.get (selectSymName dfin ws m.path m.bid) = some (save 0 m'.path m'.bid m'.tab) := by
+  have hprimEq : basename m.path ++ ".sym".toList = primaryName m := rfl
+  have haltEq : newSymName (primaryName m) m.path m.bid = altName m := rfl
+  -- the primary file after the step, and who wrote it
+  cases hd : d.get (primaryName m) with
+  | none =>
+    -- the writer creates the primary file for m; the reader finds m's own header
+    have hs : saveStep d m = d ++ [(primaryName m, save 0 m.path m.bid m.tab)] := by
+      unfold saveStep saveInto
+      have : m.tab.isEmpty = false := by cases h : m.tab <;> simp_all
+      simp only [this, Bool.false_eq_true, if_false, hprimEq, hd]
+    have hf : dfin.get (primaryName m) = some (save 0 m.path m.bid m.tab) :=
+      hmono _ _ (by rw [hs]; exact get_append_new d _ _ hd)
+    refine ⟨m, hm, rfl, ?_⟩
+    have hsel : selectSymName dfin ws m.path m.bid = primaryName m := by
+      unfold selectSymName
+      simp only [hprimEq, hf, hdr_of ws all hC m hm hne]
+      rw [if_neg]
+      intro ⟨_, h⟩
+      rcases h with h | h
+      · exact h.1 rfl
+      · exact h.2.2 rfl
+    rw [hsel]; exact hf
+  | some text0 =>
+    obtain ⟨m0, hm0d, hne0, ht0, hnm0⟩ := hW _ _ hd
+    have hm0 : m0 ∈ all := hsub m0 hm0d
+    have hprim0 : primaryName m = primaryName m0 := by
+      rcases hnm0 with h | h
+      · exact h
+      · exact absurd h.symm (hC.altPrim m0 hm0 m hm)
+    have hf0 : dfin.get (primaryName m) = some (save 0 m0.path m0.bid m0.tab) :=
+      hmono _ _ (saveStep_mono d m _ _ (ht0 ▸ hd))
+    have hh0 := hdr_of ws all hC m0 hm0 hne0
+    have hcnt : (if m0.bid.isEmpty = true then 1 else 2) > 0 := by split <;> decide
+    by_cases hsame : m0.path = m.path
+    · -- the same path name: the file is m's
+      obtain ⟨hb, htab⟩ := hC.samePath m0 hm0 m hm hsame
+      refine ⟨m0, hm0, htab, ?_⟩
+      have hsel : selectSymName dfin ws m.path m.bid = primaryName m := by
+        unfold selectSymName
+        simp only [hprimEq, hf0, hh0]
+        rw [if_neg]
+        intro ⟨_, h⟩
+        rcases h with h | h
+        · exact h.1 hsame
+        · exact h.2.2 hb
+      rw [hsel]; exact hf0
+    · by_cases hpick : ws = false ∨ m0.bid ≠ m.bid
+      · -- writer and reader both go for the alternative name
+        have hbne : ws = true → m0.bid ≠ [] ∧ m.bid ≠ [] :=
+          fun h => ⟨hC.withSyms h m0 hm0, hC.withSyms h m hm⟩
+        have hsel : selectSymName dfin ws m.path m.bid = altName m := by
+          unfold selectSymName
+          simp only [hprimEq, hf0, hh0, haltEq]
+          rw [if_pos]
+          refine ⟨hcnt, ?_⟩
+          cases ws with
+          | false => exact Or.inl ⟨hsame, rfl⟩
+          | true =>
+            rcases hpick with h | h
+            · exact absurd h (by decide)
+            · exact Or.inr ⟨(hbne rfl).1, (hbne rfl).2, h⟩
+        rw [hsel]
+        -- what the writer did with the alternative name
+        have hnotsame : ¬ (m0.path = m.path ∧ m0.bid = m.bid) := fun h => hsame h.1
+        cases hda : d.get (altName m) with
+        | none =>
+          have hs : saveStep d m = d ++ [(altName m, save 0 m.path m.bid m.tab)] := by
+            unfold saveStep saveInto
+            have : m.tab.isEmpty = false := by cases h : m.tab <;> simp_all
+            simp only [this, Bool.false_eq_true, if_false, hprimEq, hd, ht0, hh0, haltEq, hda]
+            rw [if_neg (by omega), if_neg hnotsame]
+          exact ⟨m, hm, rfl, hmono _ _ (by rw [hs]; exact get_append_new d _ _ hda)⟩
+        | some text1 =>
+          obtain ⟨m1, hm1d, hne1, ht1, hnm1⟩ := hW _ _ hda
+          have hm1 : m1 ∈ all := hsub m1 hm1d
+          have halt1 : altName m = altName m1 := by
+            rcases hnm1 with h | h
+            · exact absurd h (hC.altPrim m hm m1 hm1)
+            · exact h
+          have htab : m1.tab = m.tab := by
+            rcases hC.altAlt m hm m1 hm1 halt1 with h | h
+            · exact ((hC.samePath m hm m1 hm1 h).2).symm
+            · exact (hC.sameBid m hm m1 hm1 h.1 h.2).symm
+          exact ⟨m1, hm1, htab, hmono _ _ (saveStep_mono d m _ _ (ht1 ▸ hda))⟩
+      · -- --with-syms and the same build-id under another path: the primary file serves
+        have hws : ws = true := by cases ws <;> simp_all
+        have hb : m0.bid = m.bid := by
+          apply Classical.byContradiction; intro h; exact hpick (Or.inr h)
+        have hbn : m0.bid ≠ [] := hC.withSyms hws m0 hm0
+        refine ⟨m0, hm0, hC.sameBid m0 hm0 m hm hb hbn, ?_⟩
+        have hsel : selectSymName dfin ws m.path m.bid = primaryName m := by
+          unfold selectSymName
+          simp only [hprimEq, hf0, hh0]
+          rw [if_neg]
+          intro ⟨_, h⟩
+          rcases h with h | h
+          · rw [hws] at h; exact absurd h.2 (by decide)
+          · exact h.2.2 hb
+        rw [hsel]; exact hf0
+
+/-- Writer and reader agree: after `save_module_symtabs` has handled the modules in any
+    order, the file `load_module_symbol` selects for a module holds that module's table. -/
+theorem writer_reader_agree (ws : Bool) (ms : List Mod) (hC : Consistent ws ms) (m : Mod) (hm : m ∈ ms)
+    (hne : m.tab ≠ []) :
+    ∃ m' ∈ ms, m'.tab = m.tab ∧
+      (saveAll ms).get (selectSymName (saveAll ms) ws m.path m.bid) = some (save 0 m'.path m'.bid m'.tab) := by
+  obtain ⟨pre, post, hsplit⟩ := List.append_of_mem hm
+  have hW : Written pre (pre.foldl saveStep []) := by
+    simpa using written_foldl pre [] [] written_nil
+  have hfin : saveAll ms = post.foldl saveStep (saveStep (pre.foldl saveStep []) m) := by
+    unfold saveAll; rw [hsplit, List.foldl_append, List.foldl_cons]
+  rw [hfin]
+  exact reader_after_step ws ms pre _ _ m hC (fun x hx => by rw [hsplit]; simp [hx]) hm hW hne
+    (fun nm x h => foldl_saveStep_mono post _ nm x h)
+
+
 end Uft.SymFile
